@@ -843,8 +843,9 @@ fn gen_refuse(rng: &mut Rng, phrase: &str) -> Op {
     if rng.coin() {
         // both selectors, each before or after the sub-command (or through the environment)
         why = "selectors-combined";
-        let idx = ["0", "1", "2", "7"][rng.usize_below(4)].to_string();
-        let path = ["m/44'/60'/0'/0/1", "m/0", "m/44'/60'/0'/0/0"][rng.usize_below(3)].to_string();
+        let idx = ["0", "0", "1", "2", "7", ""][rng.usize_below(6)].to_string();
+        // (an empty value is still a value: the selector is present)
+        let path = ["m/44'/60'/0'/0/1", "m/0", "m/44'/60'/0'/0/0", ""][rng.usize_below(4)].to_string();
         let mut place = |flag: &str, envname: &str, val: String, rng: &mut Rng| match rng.below(if tail.is_empty() { 2 } else { 3 }) {
             0 => pre.extend([flag.to_string(), val]),
             1 => env.push((envname.to_string(), val)),
@@ -856,9 +857,9 @@ fn gen_refuse(rng: &mut Rng, phrase: &str) -> Op {
         why = "malformed-selector-accepted";
         let bad_paths = [
             "44'/60'/0'/0/0", "M/44'/60'/0'/0/0", "m", "m/", "m/44h/60h/0h/0/0", "m/44'/60'/0'/0/", "m//0", "m/44'/x/0", "m/4294967296",
-            "m/-1", "m/0x10", "m/44''/0", "m/1.0", "/m/0", "m\\0", "n/0",
+            "m/-1", "m/0x10", "m/44''/0", "m/1.0", "/m/0", "m\\0", "n/0", "", " ",
         ];
-        let bad_index = ["abc", "-1", "4294967296", "1.5", "0x1", "1e3", "²", " "];
+        let bad_index = ["abc", "-1", "4294967296", "1.5", "0x1", "1e3", "²", " ", "", "+"];
         if rng.chance(2, 3) {
             let v = bad_paths[rng.usize_below(bad_paths.len())].to_string();
             if rng.coin() {
@@ -920,7 +921,24 @@ pub fn gen_acct_case(rng: &mut Rng) -> AcctCase {
                 2 => rng.range(0, 5000),
                 _ => rng.range(8000, 70000),
             } as usize;
-            rng.bytes(n)
+            if rng.chance(1, 4) {
+                // a message is opaque bytes, also when it looks like something the tool knows
+                let h = hex::encode(rng.bytes_between(0, 40));
+                match rng.below(10) {
+                    0 => format!("0x{h}").into_bytes(),
+                    1 => format!("0x{}\n", h.to_uppercase()).into_bytes(),
+                    2 => h.into_bytes(),
+                    3 => b"0x".to_vec(),
+                    4 => format!("0x{}", hex::encode(rng.bytes(32))).into_bytes(),
+                    5 => format!(" 0x{h} \n").into_bytes(),
+                    6 => super::crashcase::GANACHE.as_bytes().to_vec(),
+                    7 => br#"{"types":{},"primaryType":"x","domain":{},"message":{}}"#.to_vec(),
+                    8 => b"\x19Ethereum Signed Message:\n0".to_vec(),
+                    _ => b"m/44'/60'/0'/0/0\n".to_vec(),
+                }
+            } else {
+                rng.bytes(n)
+            }
         }
         Op::SignTx { .. } => well_formed_transaction(rng),
         Op::SignTyped | Op::HashTyped => well_formed_typed_data(rng),
